@@ -596,10 +596,26 @@ def fetch_compare_prefix(case, text):
     outstanding; that is delegator/RequestList territory and not modelled)"""
     ops = case.split("|", 1)[1].split()
     segs = text.split(" ; ")
+    k = len(segs)
     if "t" in ops:
-        k = ops.index("t") + 1
-        return " ; ".join(segs[:k])
-    return text
+        k = min(k, ops.index("t") + 1)
+    return " ; ".join(x.replace(" !hashfail", "") for x in segs[:k])
+
+
+def fetch_cut(case, model_text):
+    """number of leading op segments that are compared: up to the first tick, and up to the first failed hash of the
+    assembled metadata (whether the provider is kept or dropped afterwards is the transfer list's bad-peer policy,
+    which the property does not constrain)"""
+    ops = case.split("|", 1)[1].split()
+    segs = model_text.split(" ; ")
+    k = len(segs)
+    if "t" in ops:
+        k = min(k, ops.index("t") + 1)
+    for j, x in enumerate(segs):
+        if "!hashfail" in x:
+            k = min(k, j + 1)
+            break
+    return k
 
 
 def fetch_model_input(case, impl):
